@@ -83,7 +83,7 @@ def sweepCalc (inc : Bool) (f sh : Nat) : Nat :=
   if !inc then (f + (65536 - (f >>> sh)) % 65536) % 65536 else (f + (f >>> sh)) % 65536
 
 /-- for an 11-bit frequency the 16-bit calculation is the documented f ± (f >> shift) -/
-theorem sweepCalc_doc (inc : Bool) (f sh : Nat) (hf : f < 2048) :
+theorem c19_sweep_calc_doc (inc : Bool) (f sh : Nat) (hf : f < 2048) :
     sweepCalc inc f sh = if inc then f + (f >>> sh) else f - (f >>> sh) := by
   have hle := Nat.shiftRight_le f sh
   unfold sweepCalc
